@@ -1,6 +1,7 @@
 package rt
 
 import (
+	"fmt"
 	"strings"
 	"time"
 )
@@ -28,24 +29,43 @@ func engineStarted(g Goroutine) bool {
 // Leaked waits (at most settle) for the goroutines that were started by
 // badwolf code since the snapshot to finish and returns the survivors.
 func Leaked(before GSnap, settle time.Duration) []Goroutine {
-	deadline := time.Now().Add(settle)
+	start := time.Now()
+	deadline := start.Add(settle)
 	wait := 200 * time.Microsecond
+	lastSig, stableSince := "", time.Time{}
 	for {
 		var left []Goroutine
+		sig := ""
+		allBlocked := true
 		for _, g := range ParseStacks(AllStacks()) {
 			if before[g.ID] || !engineStarted(g) {
 				continue
 			}
 			left = append(left, g)
+			st := strings.SplitN(g.State, ",", 2)[0]
+			sig += fmt.Sprintf("%d:%s;", g.ID, st)
+			switch st {
+			case "chan send", "chan receive", "select", "semacquire", "sync.Mutex.Lock", "sync.RWMutex.Lock", "sync.RWMutex.RLock", "sync.WaitGroup.Wait", "sync.Cond.Wait":
+			default:
+				allBlocked = false
+			}
 		}
 		if len(left) == 0 {
 			return nil
 		}
-		if time.Now().After(deadline) {
+		now := time.Now()
+		if sig != lastSig || !allBlocked {
+			lastSig, stableSince = sig, now
+		}
+		// the same goroutines, all blocked, for 250 ms: nothing will wake them
+		if allBlocked && now.Sub(stableSince) > 250*time.Millisecond {
+			return left
+		}
+		if now.After(deadline) {
 			return left
 		}
 		time.Sleep(wait)
-		if wait < 20*time.Millisecond {
+		if wait < 10*time.Millisecond {
 			wait *= 2
 		}
 	}
